@@ -777,6 +777,9 @@ def vector_method(eng, st, base: Ptr, v, name, A, n):
     if name == 'pop_back':
         eng.oblige(st, 'II', 'vector::pop_back:non-empty', v.len >= 1, line)
         st.heap[oid] = replace(v, len=v.len - 1)
+        hook = getattr(eng.cur_contract, 'on_vector_op', None)
+        if hook:
+            hook(eng, st, 'pop_back', v, st.heap[oid])
         return [(st, None)]
     if name == 'resize':
         k = as_int(A[0])
@@ -809,6 +812,9 @@ def vector_method(eng, st, base: Ptr, v, name, A, n):
             a = refof(x) if v.a.sort().range() == Ref else as_int(x)
             b = refof(y) if v.b.sort().range() == Ref else as_int(y)
             st.heap[oid] = PairVec(v.len + 1, z3.Store(v.a, v.len, a), z3.Store(v.b, v.len, b))
+            hook = getattr(eng.cur_contract, 'on_vector_op', None)
+            if hook:
+                hook(eng, st, 'emplace_back', v, st.heap[oid])
             return [(st, ElemRef(oid, v.len))]
         if isinstance(v, PtrVec):
             key = v.len.sexpr()
